@@ -32,7 +32,7 @@ ASSUMPTIONS = [
     "tie A (loops): varint_done, varint_encode, varint_decode, varint_from_source, varint_u64_length (and the typed wrappers of the decoders and "
     "length queries) are translated from clang's typed AST on every run (tools/gen/cloops.py -> Gen/VarintLoops.lean: promotions explicit, the buffer "
     "structure as its fields, the caller's 64-bit cell as a one-cell block, the source as a list of future answers, loops on fuel, checked loads and "
-    "stores) and the five core functions and the typed buffer decoders and length queries (gen_varint_decode_u64/s64/u32, gen_varint_u32/s32/s64_length) are proved to agree with the model: same verdict, value, octet count, read / fill mark, octets written, source "
+    "stores) and the five core functions and the typed buffer decoders and length queries (gen_varint_decode_u64/s64/u32, gen_varint_u64/u32_from_source, gen_varint_u32/s32/s64_length) are proved to agree with the model: same verdict, value, octet count, read / fill mark, octets written, source "
     "left behind, a failing source's code handed on, no access outside the memory, termination within ten rounds (Ufw.Tie.VarintLoops.*); a function "
     "outside the translator's subset is reported `unavailable` and left to tie B",
     "tie B: lean/Ufw/Model/Varint.lean is a hand transcription of src/variable-length-integer.c, compared with the code by running",
